@@ -62,9 +62,11 @@ Theorem failed_op_never_newly_running : forall F w o w' c, step F w o = (w', c) 
   exists s, nth_error (reg w) i = Some s /\ st s = Running.
 Proof. exact failed_op_lemma. Qed.
 
-(* a requested port that a recorded service already holds is refused, and nothing changes *)
+(* a requested port that a recorded service already holds is refused, and nothing changes: same registry, no
+   call made, OS untouched (the environment is the old one with the registry file holding that registry) *)
 Theorem port_conflict_refused : forall F w a q w' c, In q (all_ports (reg w)) -> requests a q ->
-  step F w (OAdd a) = (w', c) -> is_ok c = false /\ w' = w.
+  step F w (OAdd a) = (w', c) ->
+  is_ok c = false /\ reg w' = reg w /\ wenv w' = set_disk (wenv w) (reg w).
 Proof. exact port_conflict_lemma. Qed.
 
 (* an added service never receives a number, name or data directory already on record
@@ -119,3 +121,10 @@ Theorem ok_clears_record : forall F ops i w' c s' o,
   pid s' = None /\ st s' <> Running /\
   (match o with ORemove _ _ => st s' = Removed /\ is_installed (eos (wenv w')) (number s') = false | _ => True end).
 Proof. exact ok_clears_record_lemma. Qed.
+
+(* add_node saves the registry after every service it records: whatever call fails, and wherever the batch is
+   cut short (a failing get_available_port for a LATER service returns early), the registry file it leaves is the
+   in-memory registry -- so the next command, which starts from the file, sees every installed service *)
+Theorem add_saves_every_recorded_service : forall F w a w' c,
+  step F w (OAdd a) = (w', c) -> edisk (wenv w') = reg w'.
+Proof. exact add_saves_lemma. Qed.
